@@ -94,10 +94,10 @@ func (t *Tap) record(c Commit) {
 
 // StoreWorld is a store under test plus its ground-truth tap.
 type StoreWorld struct {
-	Core    state.CoreState
-	St      state.State
-	Log     []Commit
-	Variant string
+	Core     state.CoreState
+	St       state.State
+	Log      []Commit
+	Variant  string
 	onCommit func(Commit)
 }
 
